@@ -27,6 +27,9 @@
  *          conn=[..] ho=[..] rt=[..] ck=[..] ev=[..] ovf=<udp>:<tcp>
  *          ([..] = entries of that map the program added/changed (+key:value) or removed (-key),
  *          sorted by key bytes)
+ *   peer <mask>                         tproxy_dae0peer_ingress on the skb the last frame op left; mask = filled
+ *                                       slots of listen_socket_map   -> v= mark= ptype=<-|n> assign=<-|slot>
+ *   d0 <proto> <lin> <pull> <hex>       tproxy_dae0_ingress on an Ethernet frame -> v= redir=<-|if:flags> ptype= pkt= rt=[..]
  *   parse <l2> <proto> <lin> <pull> <hex>  -> f=<parse_transport_fast> s=<parse_transport_slow> t=<parse_transport>
  *                                          each <ret> or <ret>:<consumed fields>
  *   retr ...                            -> full raw dump of conn_state_map and routing_handoff_map
@@ -121,10 +124,26 @@ long bpf_skb_change_head(void *skbp, __u32 len, __u64 flags)
 	return 0;
 }
 
+static int chtype_set;
+static uint32_t chtype_val;
+static int assign_set;
+static uint64_t assign_val;
+
 long bpf_skb_change_type(void *skb, __u32 type)
 {
 	(void)skb;
-	(void)type;
+	chtype_set = 1;
+	chtype_val = type;
+	return 0;
+}
+
+/* listen_socket_map holds, under key k, the value 1000 + k: that is "the socket" bpf_sk_assign receives */
+long bpf_sk_assign(void *ctx, void *sk, __u64 flags)
+{
+	(void)ctx;
+	assign_set = 1;
+	assign_val = flags ? 999999 : *(uint64_t *)sk;
+	sk_refs++; /* the sockmap lookup took a reference; assign_listener must release it */
 	return 0;
 }
 
@@ -378,7 +397,7 @@ static void snap_dump(const char *name, struct shim_map *m, uint32_t ks, uint32_
 /* ------------------------------------------------------------------ maps */
 
 static struct shim_map *m_routing, *m_meta, *m_lpm_array, *m_domain, *m_alive, *m_rtrack, *m_handoff,
-	*m_cookie, *m_conn, *m_stats, *m_parse, *m_pkt, *m_routectx, *m_wanscratch, *m_ctargs;
+	*m_cookie, *m_conn, *m_stats, *m_parse, *m_pkt, *m_routectx, *m_wanscratch, *m_ctargs, *m_listen;
 
 static struct dae_param *param_rw(void)
 {
@@ -416,6 +435,7 @@ static void reset_all(void)
 	shim_map_clear(m_routectx);
 	shim_map_clear(m_wanscratch);
 	shim_map_clear(m_ctargs);
+	shim_map_clear(m_listen);
 	memset(param_rw(), 0, sizeof(struct dae_param));
 	shim_ktime_ns = 1000000000ull;
 }
@@ -575,6 +595,9 @@ int main(void)
 						      sizeof(struct tuples_key), sizeof(struct routing_handoff_entry), c2);
 			m_rtrack = shim_map_register(&redirect_track, "redirect_track", BPF_MAP_TYPE_HASH,
 						     sizeof(struct redirect_tuple), sizeof(struct redirect_entry), c3);
+			/* the sockmap as a 3-slot table: a slot that was not filled has no socket */
+			m_listen = shim_map_register(&listen_socket_map, "listen_socket_map", BPF_MAP_TYPE_HASH,
+						     sizeof(__u32), sizeof(__u64), 3);
 			/* declared map types must be what the registration above assumes */
 			if (SHIM_ARRLEN(conn_state_map.type) != BPF_MAP_TYPE_HASH ||
 			    SHIM_ARRLEN(routing_handoff_map.type) != BPF_MAP_TYPE_HASH ||
@@ -828,6 +851,76 @@ int main(void)
 			putchar('\n');
 			free(b_conn.buf); free(b_ho.buf); free(b_rt.buf); free(b_ck.buf);
 			free(a_conn.buf); free(a_ho.buf); free(a_rt.buf); free(a_ck.buf);
+		} else if (!strcmp(toks[0], "peer") && n == 2) {
+			/* tproxy_dae0peer_ingress on the skb exactly as the last frame op left it (cb[], mark,
+			 * protocol, rewritten frame): after a redirect this is the handed-over frame arriving in
+			 * dae's netns */
+			unsigned mask = (unsigned)strtoul(toks[1], NULL, 10);
+			__u32 k;
+			int ret;
+
+			shim_map_clear(m_listen);
+			for (k = 0; k < 3; k++)
+				if (mask >> k & 1) {
+					__u64 v = 1000 + k;
+
+					shim_map_update(m_listen, &k, &v, BPF_ANY);
+				}
+			chtype_set = assign_set = 0;
+			sk_refs = 0;
+			ret = tproxy_dae0peer_ingress(&skb);
+			printf("v=%d mark=%u ptype=", ret, skb.mark);
+			if (chtype_set)
+				printf("%u", chtype_val);
+			else
+				putchar('-');
+			printf(" assign=");
+			if (assign_set)
+				printf("%llu", (unsigned long long)(assign_val - 1000));
+			else
+				putchar('-');
+			if (sk_refs)
+				printf(" SOCKET-REF-LEAK=%d", sk_refs);
+			putchar('\n');
+		} else if (!strcmp(toks[0], "d0") && n == 5) {
+			/* tproxy_dae0_ingress: a frame dae sends back towards a captured client */
+			struct snap b_rt, a_rt;
+			unsigned char before[FRAME_MAX];
+			uint32_t before_len;
+			int ret;
+
+			if (load_frame(1, (unsigned)strtoul(toks[1], NULL, 10), (unsigned)strtoul(toks[2], NULL, 10),
+				       atoi(toks[3]), toks[4])) {
+				puts("bad-op");
+				continue;
+			}
+			redir_set = 0;
+			chtype_set = 0;
+			memcpy(before, pkt_data, pkt_len);
+			before_len = pkt_len;
+			snap_take(m_rtrack, sizeof(struct redirect_tuple), sizeof(struct redirect_entry), &b_rt);
+			ret = tproxy_dae0_ingress(&skb);
+			snap_take(m_rtrack, sizeof(struct redirect_tuple), sizeof(struct redirect_entry), &a_rt);
+			printf("v=%d redir=", ret);
+			if (redir_set)
+				printf("%u:%llu", redir_ifindex, (unsigned long long)redir_flags);
+			else
+				putchar('-');
+			printf(" ptype=");
+			if (chtype_set)
+				printf("%u", chtype_val);
+			else
+				putchar('-');
+			if (pkt_len == before_len && !memcmp(before, pkt_data, pkt_len))
+				printf(" pkt==");
+			else {
+				printf(" pkt=");
+				puthex(pkt_data, pkt_len);
+			}
+			snap_diff("rt", &b_rt, &a_rt);
+			putchar('\n');
+			free(b_rt.buf);
+			free(a_rt.buf);
 		} else if (!strcmp(toks[0], "parse") && n == 6) {
 			int l2 = atoi(toks[1]), rf, rs, rt;
 			unsigned proto = (unsigned)strtoul(toks[2], NULL, 10), lin = (unsigned)strtoul(toks[3], NULL, 10);
@@ -853,7 +946,7 @@ int main(void)
 			printf(" t=");
 			print_consumed(rt, &ct);
 			putchar('\n');
-		} else if (!strcmp(toks[0], "retr") || !strcmp(toks[0], "dump") || !strcmp(toks[0], "jan")) {
+		} else if (!strcmp(toks[0], "retr") || !strcmp(toks[0], "dump") || !strcmp(toks[0], "jan") || !strcmp(toks[0], "use")) {
 			snap_dump("conn", m_conn, sizeof(struct tuples_key), sizeof(struct conn_state));
 			putchar(' ');
 			snap_dump("ho", m_handoff, sizeof(struct tuples_key), sizeof(struct routing_handoff_entry));
